@@ -26,8 +26,9 @@ LEVEL_TEXT = ('Every MAC of the boundary family (all-zero, all-ones, each '
               'ipaddress, and pulled back through get_mac_addr_by_ipv6; the '
               'full host x port x default product and the full URL component '
               'product are compared with the standard library.')
-LEVEL_NOTE = ('Prefixes longer than /64 and IPv4 CIDR prefixes only need to '
-              'return or raise ValueError/TypeError. Hosts, ports and URL '
+LEVEL_NOTE = ('Prefixes whose network address has bits inside the 64-bit interface '
+              'identifier (the statement does not say how they combine) and IPv4 CIDR '
+              'prefixes only need to return or raise ValueError/TypeError. Hosts, ports and URL '
               'components are the listed alphabets.')
 
 
@@ -47,8 +48,16 @@ def mac_str(m, sep=':'):
 PREFIXES = ['2001:db8::/64', 'fe80::/64', '::/64', 'ffff:ffff:ffff:ffff::/64',
             '2001:db8::1/64', '2001:db8:0:1:dead::/64', '2001:db8:8000::/32', '2001:db8::/48',
             '::/0', '2001:db8:1:2::/63', '2001:db8::/10', 'fd00::/8', '2001:db8::', 'fe80::',
-            '2001:db8:1:2:0:0:0:0/64', '2001:DB8::/64']
-OPEN_PREFIXES = ['2001:db8::/96', '2001:db8::/128', '2001:db8::ffff:0:0/112', '10.0.0.0/8',
+            '2001:db8:1:2:0:0:0:0/64', '2001:DB8::/64',
+            # longer than /64 but with nothing of the network inside the interface identifier:
+            # "combined" has only one meaning
+            '2001:db8::/96', '2001:db8::/128', '2001:db8:0:1::/72', '2001:db8:0:1::/71',
+            # network bits inside the identifier: exact whenever they do not collide with a set
+            # bit of the identifier (colliding combinations are skipped, the statement does not
+            # define them)
+            '2001:db8:0:1:200::/72', '2001:db8:0:1:8000::/65', '2001:db8:0:1:400::/70',
+            '2001:db8:0:1:100::/72', '2001:db8:0:1:0:ff00::/88']
+OPEN_PREFIXES = ['2001:db8::ffff:0:0/112', '10.0.0.0/8',
                  '2001:db8::1', 'ffff:ffff:ffff:ffff:ffff:ffff:ffff:ffff',
                  'ffff:ffff:ffff:ffff:ffff::/80', 'ffff:ffff:ffff:ffff:fff0::/76',
                  'ffff:ffff:ffff:ffff:ffff:ffff:ffff:ffff/128']
@@ -73,6 +82,9 @@ def _eui_case(vals, acc):
     mac = mac_str(m, '-' if style == 'dash' else ':')
     if style == 'upper':
         mac = mac.upper()
+    net_low = int(ipaddress.ip_network(prefix, strict=False).network_address) & ((1 << 64) - 1)
+    if net_low & (int(expected_addr('::/64', m)) & ((1 << 64) - 1)):
+        return                      # network and identifier collide: undefined by the statement
     acc.nontrivial('%s|%s' % (prefix, mac))
     try:
         got = netutils.get_ipv6_addr_by_EUI64(prefix, mac)
@@ -85,6 +97,8 @@ def _eui_case(vals, acc):
         acc.fail('eui64-forward', {'prefix': prefix, 'mac': mac, 'got': str(got), 'want': str(want)},
                  {'eui': [prefix, m, style]})
         return
+    if net_low:
+        return          # the identifier carries network bits: the MAC is not recoverable from it
     try:
         back = netutils.get_mac_addr_by_ipv6(netaddr.IPAddress(str(got)))
         ok = int(back) == m and str(back) == mac_str(m)
@@ -122,7 +136,11 @@ def _eui_bad(vals, acc):
 
 HOSTS = ['server01', 'a.example.org', 'localhost', '10.0.0.1', '255.255.255.255', '::1', '::',
          '2001:db8:85a3::8a2e:370:7334', '2001:0db8:0000:0000:0000:0000:0000:0001',
-         'fe80::1%eth0', 'fe80::a:b:c:d%lo', '::ffff:10.0.0.1']
+         'fe80::1%eth0', 'fe80::a:b:c:d%lo', '::ffff:10.0.0.1',
+         # the longest spellings of the grammar: zero-padded groups, embedded dotted quad, scope
+         '0000:0000:0000:0000:0000:ffff:10.10.10.1', 'ffff:ffff:ffff:ffff:ffff:ffff:255.255.255.255',
+         'fe80:0000:0000:0000:0202:b3ff:fe1e:8329%enp3s0', 'fe80::1%eth0.100',
+         'fe80:0000:0000:0000:0202:b3ff:fe1e:8329%tap0123456789ab', '0:0:0:0:0:0:0:1']
 PORTS = [0, 1, 80, 443, 65535]
 DEFAULTS = [None, 1234, 0, 65535]
 
@@ -160,6 +178,10 @@ PATHS = ['', '/', '/a/b', 'a;p', '/x%20y', '/p;v=1/q']
 QUERIES = ['', 'a=1', 'a=1&a=2&b=', 'a', 'a=1&b=2&a=3', 'tag=red&limit=10&tag=blue&tag=green',
            'x=%41&x=+', 'a=1;b=2']
 FRAGS = ['', 'f', 'f?x', 'f#g']
+# one decoded name under several raw spellings, in every order over three fields
+ALIAS_NAMES = ['a', '%61', 'b', 'x+y', 'x%20y']
+ALIAS_QUERIES = ['&'.join('%s=%d' % (n, i + 1) for i, n in enumerate(t))
+                 for k in (2, 3) for t in itertools.product(ALIAS_NAMES, repeat=k)]
 
 
 def build_url(scheme, netloc, path, query, frag):
@@ -208,6 +230,11 @@ def _url_case(vals, acc):
         acc.fail('params-raises', {'url': url, 'exception': type(e).__name__},
                  {'url': [url, allow, default_scheme]})
         return
+    if p1 != last or p3 != last or p2 != want_multi:
+        acc.fail('params', {'url': url, 'collapse_true': p1, 'collapse_false': p2,
+                            'want_last': last, 'want_all': want_multi},
+                 {'url': [url, allow, default_scheme]})
+        return
     if isinstance(p1, dict) and isinstance(p2, dict):
         # the dicts handed out belong to the caller: scribbling on them must not
         # change what the next call answers
@@ -247,6 +274,8 @@ def run(ctx):
     E.run(rep, 'host-port', [HOSTS, PORTS + [None], DEFAULTS], _hostport_case)
     E.run(rep, 'urlsplit', [SCHEMES, NETLOCS, PATHS, QUERIES, FRAGS, [True, False], ['', 'ftp']],
           _url_case)
+    E.run(rep, 'urlsplit-aliases', [['http'], ['host', ''], ['/a'], ALIAS_QUERIES, ['', 'f'], [True],
+                                    ['']], _url_case)
     from oslo_utils import netutils
     rep.count('evaluations')
     if netutils.parse_host_port(None) != (None, None) or netutils.parse_host_port('') != (None, None):
